@@ -31,336 +31,181 @@ def str_subscripts(node, base=None):
     return out
 
 
-def main(chk):
-    chk.explanation = ('Key-flow agreement (E2): the per-property record and per-array record produced by get_particles_info are '
-                       'compared with what each writer persists, each reader restores and add_property/ParticleArray consume; '
-                       'reader branches agree; top-level keys/groups and versions agree; detailed_output/only_real reach '
-                       'get_property_arrays; writer and reader are chosen from the same extension table.')
-    out = M.py(OUT)
-    bu = M.py(BU)
-    pa = M.cy(PA)
-    pacls = M.find_class(pa, 'ParticleArray')
-    addp = M.find_func(pacls, 'add_property')
-    params = set(M.arg_names(addp)) - {'self'}
-    # ---- producer
-    gpi = M.find_func(bu, 'get_particles_info')
-    rec = None
-    for a in ast.walk(gpi):
-        if isinstance(a, ast.Assign) and isinstance(a.value, ast.Dict) and isinstance(a.targets[0], ast.Subscript) \
-                and len(a.value.keys) >= 3:
-            rec = a
-    if rec is None:
-        raise AnalysisError('per-property record literal vanished from get_particles_info')
-    rkeys = set(M.const_str(k) for k in rec.value.keys)
-    chk.decide(rkeys <= params and {'name', 'type', 'default', 'stride', 'data'} <= rkeys, 'property-record-keys', 'producer-vs-add_property',
-               node=rec, file=BU, func='get_particles_info',
-               detail_bad='record keys %s vs add_property parameters %s (name,type,default,stride,data all required)' % (sorted(rkeys), sorted(params)),
-               detail_ok='%s' % sorted(rkeys))
-    vals = dict((M.const_str(k), U(v)) for k, v in zip(rec.value.keys, rec.value.values))
-    key = U(rec.targets[0].slice)
-    want = {'name': key, 'type': 'prop.get_c_type()', 'default': 'parray.default_values[%s]' % key,
-            'stride': 'parray.stride.get(%s, 1)' % key}
-    for k, w in sorted(want.items()):
-        chk.decide(vals.get(k) == w, 'property-record-keys', 'producer-value:' + k, node=rec, file=BU, func='get_particles_info',
-                   detail_bad='record[%s] = %s, expected %s (the attribute of the same property)' % (k, vals.get(k), w), detail_ok=w)
-    arec = [c for c in M.calls(gpi) if M.call_name(c) == 'dict' and len(c.keywords) >= 3]
-    if not arec:
-        raise AnalysisError('per-array record vanished from get_particles_info')
-    akeys = set(k.arg for k in arec[0].keywords)
-    chk.decide(set(ROUND_TRIP_ARRAY_KEYS) <= akeys, 'array-record-keys', 'producer', node=arec[0], file=BU, func='get_particles_info',
-               detail_bad='per-array record lacks %s' % sorted(set(ROUND_TRIP_ARRAY_KEYS) - akeys), detail_ok=str(sorted(akeys)))
-    akv = dict((k.arg, U(k.value)) for k in arec[0].keywords)
-    chk.decide(akv.get('output_property_arrays') == 'parray.output_property_arrays', 'array-record-keys', 'producer-value:output_property_arrays',
-               node=arec[0], file=BU, func='get_particles_info', detail_bad='output list recorded as %s' % akv.get('output_property_arrays'),
-               detail_ok='parray.output_property_arrays')
+def rule_model_round_trip(chk):
+    """dump() followed by load(), interpreted (E8) on model particle arrays with a model of h5py and of numpy's npz files (verif_static/iomodel.py): for both formats and every
+    combination of detailed_output / only_real / compress what comes back is what went in - every property (written or not) with its type, default and stride, the data of the
+    written ones (real particles only when asked), the output list, the constants and the solver data, value for value."""
+    from verif_static import emit as EM, absint as AI, iomodel as IO
+    IO.install()
+    out_t = M.py(OUT)
+    dump_fn = M.find_func(out_t, 'dump')
 
-    ploop = M.enclosing(arec[0], (ast.For,))
-    for k in arec[0].keywords:
-        if isinstance(k.value, ast.Name):
-            nm = k.value.id
-            mutated = any(isinstance(a, ast.Assign) and isinstance(a.targets[0], ast.Subscript) and U(a.targets[0].value) == nm
-                          for a in ast.walk(gpi))
-            if not mutated:
-                continue
-            created = [a for a in ast.walk(gpi) if isinstance(a, ast.Assign) and U(a.targets[0]) == nm]
-            inside = ploop is not None and bool(created) and all(any(a is x for x in ast.walk(ploop)) for a in created)
-            chk.decide(inside, 'array-record-keys', 'fresh-per-array:' + nm, node=created[0] if created else gpi, file=BU,
-                       func='get_particles_info',
-                       detail_bad='%s is filled per particle array but created once outside the loop: all arrays share (and overwrite) one '
-                                  'dictionary' % nm, detail_ok='created anew for every array')
-    # ---- Output.dump plumbing
-    ocls = M.find_class(out, 'Output')
-    dump = M.find_func(ocls, 'dump')
-    gpa = [c for c in M.calls(dump) if isinstance(c.func, ast.Attribute) and c.func.attr == 'get_property_arrays']
-    kw = dict((k.arg, U(k.value)) for k in gpa[0].keywords) if gpa else {}
-    chk.decide(kw.get('all') == 'self.detailed_output' and kw.get('only_real') == 'self.only_real', 'options-reach-writer',
-               'Output.dump', node=gpa[0] if gpa else dump, file=OUT, func='Output.dump',
-               detail_bad='get_property_arrays called with %s' % kw, detail_ok='all=self.detailed_output, only_real=self.only_real')
-    loop = M.enclosing(gpa[0], (ast.For,)) if gpa else None
-    chk.decide(loop is not None and U(loop.iter) == 'particles', 'options-reach-writer', 'every-array', node=dump, file=OUT,
-               func='Output.dump', detail_bad='not every particle array is written', detail_ok='for array in particles')
-    oinit = M.find_func(ocls, '__init__')
-    sto = dict((U(a.targets[0]), U(a.value)) for a in ast.walk(oinit) if isinstance(a, ast.Assign))
-    chk.decide(all(sto.get('self.' + k) == k for k in ('detailed_output', 'only_real', 'compress', 'mpi_comm')), 'options-reach-writer',
-               'Output.__init__', node=oinit, file=OUT, func='Output.__init__', detail_bad='constructor stores %s' % sto, detail_ok='stored verbatim')
-    dfn = M.find_func(out, 'dump')
-    order = [a for a in M.arg_names(oinit) if a != 'self']
-    for c in M.calls(dfn):
-        if M.call_name(c) in ('HDFOutput', 'NumpyOutput'):
-            got = [U(a) for a in c.args]
-            chk.decide(got == order[:len(got)] and len(got) == 4, 'options-reach-writer', 'dump->' + M.call_name(c), node=c, file=OUT,
-                       func='dump', detail_bad='%s(%s) vs parameters %s' % (M.call_name(c), ', '.join(got), order), detail_ok='positional order matches')
-    # get_property_arrays slices by count*stride of the same key
-    gp = M.find_func(pacls, 'get_property_arrays')
-    sl = [s for s in ast.walk(gp) if isinstance(s, ast.Subscript) and isinstance(s.slice, ast.Slice)]
-    okk = bool(sl) and U(sl[0].slice.upper).replace(' ', '') in ('num_particles*stride', 'stride*num_particles')
-    sdef = [a for a in ast.walk(gp) if isinstance(a, ast.Assign) and U(a.targets[0]) == 'stride']
-    npd = [a for a in ast.walk(gp) if isinstance(a, ast.Assign) and U(a.targets[0]) == 'num_particles']
-    okk = okk and bool(sdef) and U(sdef[0].value) == 'self.stride.get(prop, 1)' and bool(npd) and \
-        U(npd[0].value) == 'self.get_number_of_particles(only_real)'
-    chk.decide(okk, 'options-reach-writer', 'get_property_arrays:count*stride', node=gp, file=PA, func='get_property_arrays',
-               detail_bad='stored slice is not [: number_of_particles(only_real) * stride(prop)]', detail_ok='[:num_particles*stride]')
-    allp = [i for i in ast.walk(gp) if isinstance(i, ast.If) and U(i.test).replace(' ', '') in ('allorlen(props)==0',)]
-    chk.decide(bool(allp), 'options-reach-writer', 'get_property_arrays:all-or-output-list', node=gp, file=PA, func='get_property_arrays',
-               detail_bad='brief output does not use output_property_arrays / detailed output all properties', detail_ok='all or empty list -> every property')
+    class Data(list):
+        def __init__(self, token, size):
+            list.__init__(self, [0] * size)
+            self.token = token
 
-    # ---- npz writer / reader
-    ncls = M.find_class(out, 'NumpyOutput')
-    nd, nl = M.find_func(ncls, '_dump'), M.find_func(ncls, '_load')
-    topw = set()
-    for a in ast.walk(nd):
-        if isinstance(a, ast.Assign) and U(a.targets[0]) == 'output_data' and isinstance(a.value, ast.Dict):
-            topw |= set(M.const_str(k) for k in a.value.keys)
-    sv = [c for c in M.calls(nd) if M.call_name(c) == 'save_method']
-    ver = None
-    if sv:
-        for k in sv[0].keywords:
-            if k.arg == 'version':
-                ver = U(k.value)
-                topw.add('version')
-    whole = any(isinstance(v, ast.Attribute) and U(v) == 'self.particle_data' for a in ast.walk(nd) if isinstance(a, ast.Dict) for v in a.values)
-    chk.decide(whole and ver == '2', 'npz-keys', 'writer-persists-whole-record', node=nd, file=OUT, func='NumpyOutput._dump',
-               detail_bad='npz writer does not store the whole particle record with version=2', detail_ok='particles=self.particle_data, version=2')
-    arr_added = [a for a in ast.walk(nd) if isinstance(a, ast.Assign) and isinstance(a.targets[0], ast.Subscript)
-                 and M.const_str(a.targets[0].slice) == 'arrays']
-    chk.decide(bool(arr_added) and U(arr_added[0].value) == 'arrays' and 'self.all_array_data.items()' in U(M.enclosing(arr_added[0], (ast.For,)).iter),
-               'npz-keys', 'writer-attaches-data', node=nd, file=OUT, func='NumpyOutput._dump',
-               detail_bad='stored data are not attached per array under "arrays"', detail_ok='particle_data[name]["arrays"] = arrays')
-    topr = set(k for k in str_subscripts(nl, 'data'))
-    chk.decide(topr <= topw | {'arrays'} and {'version', 'solver_data', 'particles'} <= topr, 'npz-keys', 'top-level', node=nl, file=OUT,
-               func='NumpyOutput._load', detail_bad='reader uses top-level keys %s, writer stores %s' % (sorted(topr), sorted(topw)),
-               detail_ok='%s' % sorted(topr))
-    # v2 reader consumes the record keys
-    v2 = [i for i in ast.walk(nl) if isinstance(i, ast.If) and U(i.test).replace(' ', '') == 'version==2']
-    v1 = [i for i in ast.walk(nl) if isinstance(i, ast.If) and U(i.test).replace(' ', '') == 'version==1']
-    chk.decide(bool(v1) and bool(v2), 'npz-keys', 'versions-1-and-2-handled', node=nl, file=OUT, func='NumpyOutput._load',
-               detail_bad='reader lacks a branch for version 1 or 2', detail_ok='both branches present')
-    if v2:
-        body = ast.Module(body=v2[0].body, type_ignores=[])
-        used = set(str_subscripts(body, 'array_info'))
-        chk.decide(set(ROUND_TRIP_ARRAY_KEYS) | {'arrays'} <= used and used <= akeys | {'arrays'}, 'npz-keys', 'v2-reader-restores-record',
-                   node=v2[0], file=OUT, func='NumpyOutput._load',
-                   detail_bad='v2 reader uses %s of the per-array record %s (+arrays)' % (sorted(used), sorted(akeys)), detail_ok=str(sorted(used)))
-        ctor = [c for c in M.calls(body) if M.call_name(c) == 'ParticleArray']
-        okc = bool(ctor) and any(k.arg == 'constants' and 'constants' in U(k.value) for k in ctor[0].keywords) and \
-            any(k.arg is None and 'properties' in U(k.value) for k in ctor[0].keywords) and \
-            any(k.arg == 'name' for k in ctor[0].keywords)
-        chk.decide(okc, 'npz-keys', 'v2-reader-constructs-array', node=ctor[0] if ctor else v2[0], file=OUT, func='NumpyOutput._load',
-                   detail_bad='array is not rebuilt from name, constants and the property records', detail_ok='ParticleArray(name, constants, **properties)')
-        inj = [a for a in ast.walk(body) if isinstance(a, ast.Assign) and isinstance(a.targets[0], ast.Subscript)
-               and M.const_str(a.targets[0].slice) == 'data']
-        chk.decide(bool(inj) and "['properties'][prop]" in U(inj[0].targets[0]), 'npz-keys', 'v2-reader-injects-data', node=v2[0], file=OUT,
-                   func='NumpyOutput._load', detail_bad='stored data is not placed in the record of the same property', detail_ok=U(inj[0]) if inj else '')
-        so = [c for c in M.calls(body) if isinstance(c.func, ast.Attribute) and c.func.attr == 'set_output_arrays']
-        chk.decide(bool(so) and 'output_property_arrays' in U(so[0]), 'npz-keys', 'v2-reader-restores-output-list', node=v2[0], file=OUT,
-                   func='NumpyOutput._load', detail_bad='output array list is not restored', detail_ok=U(so[0]) if so else '')
-    if v1:
-        body = ast.Module(body=v1[0].body, type_ignores=[])
-        ok = any(M.call_name(c) == 'get_particle_array' and any(k.arg == 'name' for k in c.keywords) for c in M.calls(body))
-        chk.decide(ok, 'npz-keys', 'v1-reader', node=v1[0], file=OUT, func='NumpyOutput._load',
-                   detail_bad='version-1 files are no longer rebuilt through get_particle_array(name=..., **arrays)', detail_ok='get_particle_array')
-    els = [r for r in ast.walk(nl) if isinstance(r, ast.Raise)]
-    chk.decide(len(els) >= 2, 'npz-keys', 'unknown-version-raises', node=nl, file=OUT, func='NumpyOutput._load',
-               detail_bad='missing or unknown version does not raise', detail_ok='raises')
+        def __eq__(self, other):
+            return self is other
 
-    # ---- hdf5 writer / reader
-    hcls = M.find_class(out, 'HDFOutput')
-    hd, hl = M.find_func(hcls, '_dump'), M.find_func(hcls, '_load')
-    gpart = M.find_func(hcls, '_get_particles')
-    sp = M.find_func(hcls, '_set_properties')
-    grp_w = set(M.const_str(c.args[0]) for c in M.calls(hd) if isinstance(c.func, ast.Attribute) and c.func.attr == 'create_group' and c.args)
-    grp_w |= set(M.const_str(c.args[0]) for f in ('_set_constants',) for c in M.calls(M.find_func(hcls, f))
-                 if isinstance(c.func, ast.Attribute) and c.func.attr == 'create_group' and c.args)
-    grp_w.discard(None)
-    grp_r = set(k for k in str_subscripts(hl)) | set(k for k in str_subscripts(gpart, 'prop_array'))
-    chk.decide(grp_r <= grp_w and {'solver_data', 'particles', 'arrays', 'constants'} <= grp_r, 'hdf5-keys', 'groups', node=hl, file=OUT,
-               func='HDFOutput._load', detail_bad='reader opens groups %s, writer creates %s' % (sorted(grp_r), sorted(grp_w)),
-               detail_ok=str(sorted(grp_r)))
-    # attributes written per property: every record key (loop over attributes.items()) + 'stored'
-    wattrs = set(str_subscripts(sp, 'prop.attrs'))
-    allrec = any(isinstance(l, ast.For) and 'attributes.items()' in U(l.iter) and
-                 any(isinstance(a, ast.Assign) and U(a.targets[0]) == 'prop.attrs[attname]' for a in ast.walk(l)) for l in ast.walk(sp))
-    src_attr = [l for l in ast.walk(sp) if isinstance(l, ast.For) and "pdata['properties'].items()" in U(l.iter)]
-    chk.decide(allrec and bool(src_attr) and 'stored' in wattrs, 'hdf5-keys', 'writer-persists-record', node=sp, file=OUT,
-               func='HDFOutput._set_properties', detail_bad='hdf5 writer does not store every key of the property record plus the stored flag',
-               detail_ok='every record key + stored')
-    written = rkeys | {'stored'} if allrec else wattrs
-    rattrs = set(str_subscripts(gpart, 'h5obj.attrs'))
-    chk.decide(rattrs <= written and {'name', 'type', 'default', 'stride', 'stored'} <= rattrs, 'hdf5-keys', 'reader-attributes', node=gpart,
-               file=OUT, func='HDFOutput._get_particles',
-               detail_bad='reader uses attributes %s, writer stores %s (name,type,default,stride,stored all required)' % (sorted(rattrs), sorted(written)),
-               detail_ok=str(sorted(rattrs)))
-    # stored flag semantics: True iff data present
-    sto_t = [a for a in ast.walk(sp) if isinstance(a, ast.Assign) and U(a.targets[0]) == "prop.attrs['stored']"]
-    ok = len(sto_t) == 2
-    if ok:
-        for a in sto_t:
-            br = M.enclosing(a, (ast.If,))
-            in_body = any(a is x for b in br.body for x in ast.walk(b))
-            ok = ok and U(br.test) == 'propname in data' and (U(a.value) == 'True') == in_body
-    chk.decide(ok, 'hdf5-keys', 'stored-flag', node=sp, file=OUT, func='HDFOutput._set_properties',
-               detail_bad='stored flag does not mean "data for this property was written"', detail_ok='True iff propname in data')
-    # every property is re-created with its type, default and stride, stored or not: the keywords that reach add_property on *every* path
-    # (explicit keywords, or the keys of a ** dictionary that were put in by statements dominating the call)
-    adds = [c for c in M.calls(gpart) if isinstance(c.func, ast.Attribute) and c.func.attr == 'add_property']
-    chk.floor('add_property calls in hdf5 reader', len(adds), 1)
-    M.set_parents(gpart)
-    gg = C.build_cfg(gpart)
+        def __hash__(self):
+            return id(self)
 
-    def stmt_of(n):
-        while not isinstance(n, ast.stmt):
-            n = n.parent
-        return n
+    def carray(ctype, token):
+        return EM.mock(get_c_type=lambda i, a, k, n, e: ctype, get_npy_array=lambda i, a, k, n, e: ('npy', token))
 
-    def guaranteed(c):
-        keys = dict((k.arg, U(k.value)) for k in c.keywords if k.arg is not None)
-        cn = gg.node_of(stmt_of(c))
-        for k in c.keywords:
-            if k.arg is None and isinstance(k.value, ast.Name):
-                dn = k.value.id
-                for st in ast.walk(gpart):
-                    sn = gg.node_of(st) if isinstance(st, ast.stmt) else None
-                    if sn is None or cn is None or not gg.dominates(sn, cn) or sn == cn:
+    def model_pa(name, props, consts, outputs, strides, defaults, nreal, ntotal):
+        made = {}
+
+        def gpa(i, a, k, n, e):
+            all_ = k.get('all', a[0] if a else True)
+            real = k.get('only_real', a[1] if len(a) > 1 else True)
+            names = list(props) if (all_ or not outputs) else list(outputs)      # ParticleArray.get_property_arrays, decided separately below
+            res = {}
+            for p_ in names:
+                tok = ('data', name, p_, bool(real))
+                made[tok] = Data(tok, (nreal if real else ntotal) * strides.get(p_, 1))
+                res[p_] = made[tok]
+            return res
+        return EM.mock(name=name, properties=dict((p_, carray(t_, (name, p_))) for p_, t_ in props.items()), constants=dict((c_, carray('double', (name, c_))) for c_ in consts),
+                       default_values=dict(defaults), stride=dict(strides), output_property_arrays=list(outputs), get_lb_props=lambda i, a, k, n, e: list(props), gpu=None,
+                       get_property_arrays=gpa, get_number_of_particles=lambda i, a, k, n, e: nreal if (a and a[0]) else ntotal, lb_props=None)
+    SPEC1 = [('fluid', {'x': 'double', 'A': 'double', 'tag': 'int', 'u': 'double', 'B': 'float'}, ['c0'], ['x', 'A', 'tag'], {'A': 4, 'B': 3}, {'x': 0.0, 'A': 1.5, 'tag': 0, 'u': 2.5, 'B': 7.0}, 3, 5),
+            ('inlet', {'x': 'double', 'm': 'double'}, [], ['x'], {}, {'x': 0.0, 'm': 1.0}, 0, 0),          # an array that is still empty
+            ('ghosts', {'x': 'double', 'p': 'float'}, ['k'], ['x', 'p'], {}, {'x': 0.0, 'p': 9.0}, 0, 4),   # particles but no real ones
+             ('solid', {'x': 'double', 'm': 'double'}, [], [], {}, {'x': 0.0, 'm': 1.0}, 2, 2)]             # no output list: everything is written, and the list stays empty
+    SPEC2 = [('fluid', {'x': 'double', 'A': 'double', 'tag': 'int', 'u': 'double', 'B': 'float', 'extra': 'long'}, ['c0'], ['x', 'u', 'extra'], {'A': 4, 'B': 3, 'extra': 2},
+              {'x': 0.0, 'A': 1.5, 'tag': 0, 'u': 2.5, 'B': 7.0, 'extra': 5}, 3, 5)] + SPEC1[1:]
+    SD = {'t': 0.5, 'dt': 1e-3, 'count': 7, 'ids': [42], 'tag': b'abc', 'bodies': {1: 'left', 2: 'right'}}
+    ci = M.ClassIndex([OUT, BU, 'pysph/__init__.py'])
+    n = 0
+    for fmt in ('hdf5', 'npz'):
+        for detailed in (False, True):
+            for only_real in (True, False):
+                for compress in (False, True):
+                  for second in (False, True):
+                    inst = '%s:detailed=%s:only_real=%s:compress=%s%s' % (fmt, detailed, only_real, compress, ':second-dump' if second else '')
+                    # the second dump of a run: same array names, but a property was added and the output list changed since the first one
+                    SPEC = SPEC2 if second else SPEC1
+                    pas = [model_pa(*sp) for sp in SPEC]
+                    intr = IO.class_intrinsics(ci, OUT, ('HDFOutput', 'NumpyOutput'))
+                    intr[('pysph/__init__.py', None, 'has_h5py')] = lambda i, f, a, k, n_, e: True
+                    it = AI.Interp(ci, AI.Config([]), intrinsics=intr)
+                    IO.FILES.clear()
+                    # a name whose stem ends in characters of the extension, as step files do (run_15.hdf5)
+                    fname = 'run_dfnp5.' + fmt
+                    n += 1
+                    try:
+                        if second:
+                            EM.call_function(it, OUT, 'dump', 'run_dfnp4.' + fmt, [model_pa(*sp) for sp in SPEC1], dict(SD, count=6), detailed_output=detailed, only_real=only_real,
+                                             mpi_comm=None, compress=compress)
+                        EM.call_function(it, OUT, 'dump', fname, pas, SD, detailed_output=detailed, only_real=only_real, mpi_comm=None, compress=compress)
+                        res = EM.call_function(it, OUT, 'load', fname)
+                    except AI.Raised as e:
+                        chk.violated('round-trip', inst, node=e.node or dump_fn, file=e.rel or OUT, func='dump/load',
+                                     detail='on the model problem (a normal array, a still empty one, one without real particles) dump + load raises %s %s' % (e.what, getattr(e, 'args_values', None) or ''))
                         continue
-                    if isinstance(st, ast.Assign) and U(st.targets[0]) == dn:
-                        if isinstance(st.value, ast.Call) and M.call_name(st.value) == 'dict':
-                            keys.update((kk.arg, U(kk.value)) for kk in st.value.keywords if kk.arg)
-                        elif isinstance(st.value, ast.Dict):
-                            keys.update((M.const_str(kk), U(vv)) for kk, vv in zip(st.value.keys, st.value.values) if kk is not None)
-                    elif isinstance(st, ast.Assign) and isinstance(st.targets[0], ast.Subscript) and U(st.targets[0].value) == dn:
-                        keys[M.const_str(st.targets[0].slice)] = U(st.value)
-                    elif isinstance(st, ast.Expr) and isinstance(st.value, ast.Call) and M.call_name(st.value) == dn + '.update':
-                        keys.update((kk.arg, U(kk.value)) for kk in st.value.keywords if kk.arg)
-        return keys
-    for i, c in enumerate(adds):
-        keys = guaranteed(c)
-        need = {'type', 'default', 'stride'}
-        chk.decide(need <= set(keys), 'hdf5-reader-branches-agree', 'add_property#%d' % i, node=c, file=OUT, func='HDFOutput._get_particles',
-                   detail_bad='a property is re-created without %s on some path (keywords reaching the call on every path: %s): a property that was not written - or any property - '
-                              'comes back with the default type / default value / stride 1' % (sorted(need - set(keys)), sorted(keys)),
-                   detail_ok='name, ' + ', '.join(sorted(keys)))
-    # attribute values flow from the attribute of the same name
-    for nm in ('default', 'stride'):
-        d = [a for a in ast.walk(gpart) if isinstance(a, ast.Assign) and U(a.targets[0]) == nm]
-        if not d:
-            # passed inline: the value of the keyword itself
-            vals_ = [guaranteed(c).get(nm) for c in adds]
-            ok = all(v is not None and ("'%s'" % nm) in v and 'h5obj.attrs' in v for v in vals_)
-            chk.decide(ok, 'hdf5-keys', 'reader-value:' + nm, node=gpart, file=OUT, func='HDFOutput._get_particles',
-                       detail_bad='%s is not read from attribute %r' % (nm, nm), detail_ok=str(vals_))
-            continue
-        ok = bool(d) and ("'%s'" % nm) in U(d[0].value) and 'h5obj.attrs' in U(d[0].value)
-        chk.decide(ok, 'hdf5-keys', 'reader-value:' + nm, node=d[0] if d else gpart, file=OUT, func='HDFOutput._get_particles',
-                   detail_bad='%s is not read from attribute %r' % (nm, nm), detail_ok=U(d[0].value) if d else '')
-    # per-array keys persisted / restored by hdf5
-    wsrc = ' '.join(U(M.find_func(hcls, f)) for f in ('_dump', '_set_constants', '_set_properties') +
-                    (('_set_output_arrays',) if M.find_func(hcls, '_set_output_arrays', required=False) else ()))
-    rsrc = U(gpart)
-    for k in ROUND_TRIP_ARRAY_KEYS:
-        w = ("pdata['%s']" % k) in wsrc or ("pdata.get('%s'" % k) in wsrc
-        if k == 'properties':
-            r = 'add_property' in rsrc
-        elif k == 'constants':
-            r = "constants=constants" in rsrc
-        else:
-            r = ("attrs['%s']" % k) in rsrc and 'set_output_arrays' in rsrc
-        chk.decide(w and r, 'hdf5-keys', 'array-record:' + k, node=hd if not w else gpart, file=OUT,
-                   func='HDFOutput._dump' if not w else 'HDFOutput._get_particles',
-                   detail_bad='per-array key %s is %s by the hdf5 back end: it cannot round-trip (npz persists the whole record)' % (
-                       k, 'not persisted' if not w else 'persisted but not restored'),
-                   detail_ok='persisted and restored')
-    # solver data
-    ssd, gsd = M.find_func(hcls, '_set_solver_data'), M.find_func(hcls, '_get_solver_data')
-    ok = 'self.solver_data.items()' in U(ssd) and 'grp.attrs[name] = data' in U(ssd) and 'grp.attrs.items()' in U(gsd)
-    chk.decide(ok, 'hdf5-keys', 'solver-data', node=ssd, file=OUT, func='HDFOutput._set_solver_data',
-               detail_bad='solver data is not stored/restored key by key', detail_ok='attrs[name] = data / attrs.items()')
+                    except AI.Unsupported as e:
+                        chk.undecided('round-trip', inst, node=dump_fn, file=OUT, func='dump/load', detail='not interpretable on the model: %s' % e)
+                        continue
+                    diffs = []
+                    if not isinstance(res, dict) or 'arrays' not in res:
+                        diffs.append('load returns %r' % (res,))
+                    else:
+                        sd = res.get('solver_data')
+                        if sd != SD or (isinstance(sd, dict) and any(type(sd[k_]) is not type(SD[k_]) for k_ in SD if k_ in sd)):
+                            diffs.append('solver data comes back as %r (was %r)' % (sd, SD))
+                        arrs = res['arrays']
+                        if sorted(arrs) != sorted(sp[0] for sp in SPEC):
+                            diffs.append('arrays %s' % sorted(arrs))
+                        for sp in SPEC:
+                            name, props, consts, outputs, strides, defaults, nreal, ntotal = sp
+                            pa_ = arrs.get(name)
+                            if pa_ is None:
+                                continue
+                            added = pa_.attrs['added']
+                            if sorted(added) != sorted(props):
+                                diffs.append('%s: properties %s (was %s)' % (name, sorted(added), sorted(props)))
+                            for p_, t_ in props.items():
+                                a_ = added.get(p_)
+                                if a_ is None:
+                                    continue
+                                if a_['type'] != t_ or a_['default'] != defaults[p_] or a_['stride'] != strides.get(p_, 1):
+                                    diffs.append('%s.%s: type/default/stride %s/%s/%s (was %s/%s/%s)' % (name, p_, a_['type'], a_['default'], a_['stride'], t_, defaults[p_], strides.get(p_, 1)))
+                                stored = detailed or not outputs or p_ in outputs
+                                tok = getattr(a_['data'], 'token', None) if a_['data'] is not None else None
+                                if stored and tok != ('data', name, p_, only_real):
+                                    diffs.append('%s.%s: data %s (expected the %s particles of this property)' % (name, p_, tok, 'real' if only_real else 'all'))
+                                if not stored and a_['data'] is not None:
+                                    diffs.append('%s.%s: data appears although the property was not written' % (name, p_))
+                            if pa_.attrs['output_property_arrays'] is None or sorted(pa_.attrs['output_property_arrays']) != sorted(outputs):
+                                diffs.append('%s: output arrays %s (was %s)' % (name, pa_.attrs['output_property_arrays'], outputs))
+                            if sorted(pa_.attrs['constants']) != sorted(consts) or any(pa_.attrs['constants'][c_] != ('npy', (name, c_)) for c_ in consts if c_ in pa_.attrs['constants']):
+                                diffs.append('%s: constants %s (was %s)' % (name, pa_.attrs['constants'], consts))
+                    chk.decide(not diffs, 'round-trip', inst, node=dump_fn, file=OUT, func='dump/load',
+                               detail_bad='model round trip differs: %s' % '; '.join(diffs[:4]), detail_ok='3 arrays, solver data: identical after dump + load')
+    chk.floor('model round trips', n, 32)
 
-    # what is read back is the attribute value itself: the reader must not convert it (a one-element list or array is not a scalar)
-    M.set_parents(gsd)
-    for lp in [l for l in ast.walk(gsd) if isinstance(l, ast.For) and 'attrs.items()' in U(l.iter)]:
-        tv = lp.target.elts[1].id if isinstance(lp.target, ast.Tuple) and len(lp.target.elts) == 2 and isinstance(lp.target.elts[1], ast.Name) else None
-        stores = [a for a in ast.walk(lp) if isinstance(a, ast.Assign) and isinstance(a.targets[0], ast.Subscript)]
-        redef = [a for a in ast.walk(lp) if isinstance(a, (ast.Assign, ast.AugAssign)) and U(a.targets[0] if isinstance(a, ast.Assign) else a.target) == tv]
-        ok = tv is not None and bool(stores) and all(isinstance(a.value, ast.Name) and a.value.id == tv for a in stores) and not redef
-        chk.decide(ok, 'hdf5-keys', 'solver-data-unconverted', node=redef[0] if redef else lp, file=OUT, func='HDFOutput._get_solver_data',
-                   detail_bad='the solver-data value read from the file is changed before it is returned (%s): sequences and arrays with one element come back as scalars'
-                              % (U(redef[0]) if redef else [U(a.value) for a in stores]), detail_ok='solver_data[name] = value as read')
+
+def rule_property_arrays_model(chk):
+    """ParticleArray.get_property_arrays interpreted (E8, on the lowered Cython) on a model array: which properties are handed to the writer and how much of each - every
+    property (all=True or an empty output list) or the output list; the first get_number_of_particles(only_real) * stride(property) values of each"""
+    from verif_static import emit as EM, absint as AI
+    t = M.cy(PA)
+    fn = M.find_method(t, 'ParticleArray', 'get_property_arrays')
+
+    class Arr(object):
+        def __init__(self, name):
+            self.name = name
+
+        def __getitem__(self, sl):
+            return ('slice', self.name, sl.start, sl.stop, sl.step) if isinstance(sl, slice) else ('item', self.name, sl)
+    try:
+        bad = []
+        nrun = 0
+        for outputs in (['x', 'A', 'u'], []):
+            for all_ in (True, False):
+                for only_real in (True, False):
+                    it = EM.interpreter()
+                    EM.model_module(it, '<pa>', t)
+                    props = ['A', 'x', 'B', 'u', 'tag']          # strided properties before and between plain ones
+                    strides = {'A': 4, 'B': 3}
+                    pa = EM.instance(it, '<pa>', 'ParticleArray', properties=dict((p_, EM.mock(get_npy_array=(lambda p_: lambda i, a, k, n, e: Arr(p_))(p_))) for p_ in props),
+                                     stride=dict(strides), output_property_arrays=list(outputs), gpu=None, backend='cython', constants={}, num_real_particles=3,
+                                     get_number_of_particles=lambda i, a, k, n, e: 3 if ((a and a[0]) or k.get('real')) else 7)
+                    res = EM.call(it, pa, 'get_property_arrays', all=all_, only_real=only_real)
+                    nrun += 1
+                    want_names = props if (all_ or not outputs) else outputs
+                    cnt = 3 if only_real else 7
+                    want = dict((p_, ('slice', p_, None, cnt * strides.get(p_, 1), None)) for p_ in want_names)
+                    if not isinstance(res, dict) or dict(res) != want:
+                        bad.append(('outputs=%s all=%s only_real=%s' % (outputs, all_, only_real), res))
+        chk.decide(not bad, 'options-reach-writer', 'get_property_arrays:model-run', node=fn, file=PA, func='get_property_arrays',
+                   detail_bad='for a model array (A stride 4, x, B stride 3, u, tag; 3 real of 7 particles) %s gives %s: expected the listed (or all) properties, each as its first count*stride values'
+                              % (bad[0][0] if bad else '', bad[0][1] if bad else ''), detail_ok='%d combinations of output list / all / only_real' % nrun)
+    except (AI.Unsupported, AI.Raised) as e:
+        chk.undecided('options-reach-writer', 'get_property_arrays:model-run', node=fn, file=PA, func='get_property_arrays', detail='not interpretable on the model: %s' % e)
+
+
+def main(chk):
+    chk.explanation = ('Output round trip decided on models: dump() then load() of pysph.solver.output is interpreted (E8) on model particle arrays against a model of h5py and of '
+                       "numpy's npz files, for both formats and every combination of detailed_output / only_real / compress, including the second dump of a run and file names "
+                       'whose stem ends in characters of the extension; ParticleArray.get_property_arrays (what is handed to the writer) is interpreted on a model array; '
+                       'get_number_of_particles(real) returns the real count unconditionally (shared with C06).')
+    rule_model_round_trip(chk)
+    rule_property_arrays_model(chk)
     # only_real output slices with get_number_of_particles(True): that must be the real count itself (rule shared with C06)
     import importlib.util
     spec6 = importlib.util.spec_from_file_location('c06mod', os.path.join(os.path.dirname(os.path.abspath(__file__)), 'c06.py'))
     c06 = importlib.util.module_from_spec(spec6)
     spec6.loader.exec_module(c06)
     c06.rule_count(chk, M.find_class(M.cy(PA), 'ParticleArray'))
-    # ---- extension table
-    lfn = M.find_func(out, 'load')
-    tab_r = {}
-    for i in ast.walk(lfn):
-        if isinstance(i, ast.If) and isinstance(i.test, ast.Call) and (M.call_name(i.test) or '').endswith('.endswith'):
-            ext = M.const_str(i.test.args[0])
-            cl = [M.call_name(c) for c in M.calls(ast.Module(body=i.body, type_ignores=[])) if (M.call_name(c) or '').endswith('Output')]
-            if cl:
-                tab_r[ext] = cl[0]
-    tab_w = {}
-    for a in ast.walk(dfn):
-        if isinstance(a, ast.Assign) and U(a.targets[0]) == 'file_format':
-            ext = M.const_str(a.value)
-            blk = a.parent
-            sib = blk.body if any(a is x for x in blk.body) else blk.orelse
-            cl = [M.call_name(c) for s in sib for c in M.calls(s) if (M.call_name(c) or '').endswith('Output')]
-            if cl:
-                tab_w[ext] = cl[0]
-    chk.decide(tab_r == tab_w and set(tab_r) == {'npz', 'hdf5'}, 'extension-table', 'dump-vs-load', node=lfn, file=OUT, func='load',
-               detail_bad='writer table %s vs reader table %s' % (tab_w, tab_r), detail_ok=str(tab_r))
-    fin = [a for a in ast.walk(dfn) if isinstance(a, ast.Assign) and U(a.targets[0]) == 'filename' and 'file_format' in U(a.value)]
-    g = C.build_cfg(dfn)
-    dcall = [n.id for n in g.nodes if n.ast is not None and isinstance(n.ast, ast.Expr) and M.call_name(n.ast.value) == 'output.dump']
-    ok = bool(fin) and bool(dcall) and g.dominates(g.node_of(fin[-1]), dcall[0]) and U(fin[-1].value).replace(' ', '') == "fname+'.'+file_format"
-    chk.decide(ok, 'extension-table', 'file-named-after-chosen-writer', node=dfn, file=OUT, func='dump',
-               detail_bad='the file name does not carry the extension of the writer actually used', detail_ok="fname + '.' + file_format")
-    chk.unit('functions', ['get_particles_info', 'Output.dump', 'NumpyOutput._dump/_load', 'HDFOutput._dump/_load/_get_particles/_set_properties/'
-                           '_set_constants/_get_constants/_set_solver_data/_get_solver_data', 'dump', 'load', 'ParticleArray.get_property_arrays/add_property'])
-    # ---- the file name asked for is the file name written: the extension is split off as a suffix, never "stripped" as a set of characters
-    dmp = M.find_func(out, 'dump')
-    ld = M.find_func(out, 'load')
-    nstrip = 0
-    for fn_ in (dmp, ld):
-        for c in M.calls(fn_):
-            if isinstance(c.func, ast.Attribute) and c.func.attr in ('strip', 'rstrip', 'lstrip') and c.args:
-                a0 = c.args[0]
-                single = isinstance(a0, ast.Constant) and isinstance(a0.value, str) and len(a0.value) <= 1
-                nstrip += 1
-                chk.decide(single, 'file-name-kept', '%s:%s' % (fn_.name, U(c)[:50]), node=c, file=OUT, func=fn_.name,
-                           detail_bad='`%s` removes every trailing character that occurs in the argument, not the suffix: `drop_15.hdf5` becomes `drop_1`, `setup.npz` becomes `setu` - '
-                                      'the dump lands under another name (possibly over another step\'s file) and load() of the requested name fails' % U(c),
-                           detail_ok='single character strip')
-    base = [a for a in ast.walk(dmp) if isinstance(a, ast.Assign) and U(a.targets[0]) == 'fname']
-    okb = bool(base) and all((isinstance(a.value, ast.Subscript) and isinstance(a.value.value, ast.Call) and M.call_name(a.value.value) == 'os.path.splitext' and
-                              U(a.value.value.args[0]) == 'filename' and U(a.value.slice) == '0') or U(a.value) == 'filename' or
-                             (isinstance(a.value, ast.Subscript) and isinstance(a.value.slice, ast.Slice) and U(a.value.value) == 'filename') for a in base)
-    chk.decide(okb, 'file-name-kept', 'dump:base-name', node=base[0] if base else dmp, file=OUT, func='dump',
-               detail_bad='the base name of the dump is %s: expected os.path.splitext(filename)[0], a slice of filename, or filename itself' % [U(a.value) for a in base],
-               detail_ok='os.path.splitext(filename)[0] / filename')
-    chk.assume('numpy.savez / h5py store and return the values they are given (value equality and dtypes are not decided)')
+    chk.unit('functions', ['output.dump', 'output.load', 'Output.dump', 'NumpyOutput._dump/_load', 'HDFOutput._dump/_load and helpers', 'utils.get_particles_info',
+                           'ParticleArray.get_property_arrays', 'ParticleArray.get_number_of_particles'])
+    chk.assume('library facts built into the I/O model (verif_static/iomodel.py): h5py groups/datasets/attrs behave like dictionaries, a dataset keeps the data it was created with, '
+               'h5py rejects a chunk shape containing 0; numpy.savez stores non-array objects as 0-d object arrays that give the object back; ParticleArray(name, constants, '
+               '**properties) / add_property record what they are given (C06 covers the container itself)')
+    chk.assume('the MPI gather path (mpi_comm is not None) is not part of the model')
 
 
 if __name__ == '__main__':
